@@ -97,8 +97,21 @@ void harness(void)
       reproc_kill(A);
       break;
     case 6: {
+      /* two threads may poll the same child (a reader for output, a writer for room): poll must
+       * not keep any state in the handle - every byte of it is compared, so fields this harness
+       * does not know about are covered too */
+      static unsigned char before[sizeof(reproc_t)];
+      for (size_t i = 0; i < sizeof(reproc_t); i++) {
+        before[i] = ((const unsigned char *) A)[i];
+      }
       reproc_event_source s = { A, vp_choice(0, 31), 0 };
-      reproc_poll(&s, 1, vp_choice(-1, 1000));
+      int tmo = vp_choice(-1, 1000);
+      reproc_poll(&s, 1, tmo);
+      bool untouched = true;
+      for (size_t i = 0; i < sizeof(reproc_t); i++) {
+        untouched = untouched && before[i] == ((const unsigned char *) A)[i];
+      }
+      VP_ASSERT(C20, untouched, "poll writes into the handle: two threads polling one child share that state");
       break;
     }
     default: {
